@@ -248,7 +248,7 @@ pub open spec fn stack_ok(g: St, ps: Seq<PathBuf>) -> bool {
 //@ ins after ⟦paths.push(entry.path().mash_name(&name));⟧
                         proof { lemma_tsum_push(g, before, paths@.last()); ci = ci + 1; }
 //@ endins
-//@ ins before re⟦if entry\.is_symlink\(\) &&[^{]*\{⟧
+//@ ins before re⟦if entry\.is_symlink\(\)\s*&&[^{]*\{⟧
                 let ghost mid = paths@;
                 proof {
                     // children listed by the stored entry exist and their subtree sizes add up to the popped node's size minus one
